@@ -120,6 +120,8 @@ def load(data, pos=0):
     the shape: dict(indef=bool, spans=[(start,end) of children]) for arrays.'''
     start = pos
     major, val, pos, indef = _read_head(data, pos)
+    if indef and major in (0, 1, 6):
+        raise DecodeError('indefinite length on a type that has none')
     if major == 0:
         return val, pos, None
     if major == 1:
@@ -134,6 +136,8 @@ def load(data, pos=0):
                     pos += 1
                     break
                 (chunk, pos, _i) = load(data, pos)
+                if not isinstance(chunk, bytes if major == 2 else str):
+                    raise DecodeError('chunk of an indefinite string has another type')
                 chunks.append(chunk)
             if major == 2:
                 return b''.join(chunks), pos, dict(indef=True)
